@@ -81,7 +81,7 @@ KNOWN = {'internet/asyncioreactor.py': {'AsyncioSelectorReactor': ['__init__', '
 def _views(ctx):
     v = ctx.__dict__.get("_views_d")
     if v is None:
-        v = ctx.__dict__["_views_d"] = Views(ctx, KNOWN)
+        v = ctx.__dict__["_views_d"] = Views(ctx, KNOWN, extended=True)
     return v
 
 
@@ -231,6 +231,11 @@ def _errno_cases(g, call_node):
 
 
 def check(ctx):
+    from sa.props._lib_d import Guarded
+    _check(Guarded(ctx, RULE_KINDS))
+
+
+def _check(ctx):
     # ---- (1) K14: the dispatch function of each reactor -------------------------------------------------------------
     per = {}
     for rel, qual, q, minimum in DISPATCH:
@@ -495,14 +500,38 @@ def check(ctx):
             if isinstance(st, ast.Assign) and isinstance(st.value, ast.Call) and src(st.value) == f"faildict.get({why}.__class__)" and isinstance(st.targets[0], ast.Name):
                 fvar = st.targets[0].id
         ctx.need(fvar, "f = faildict.get(why.__class__)")
+        # evaluated along the paths, not matched: with an entry in faildict every notification gets that entry, without one a fresh Failure(why)
+        from sa.astx import NotConst
+        from sa.props._lib_d import abstract_instance, facts_at
+        canned = abstract_instance("<the faildict entry>", {"Failure"})
+        fresh = abstract_instance("<Failure(why)>", {"Failure"})
+        fdef = [x.id for x in g.nodes if x.kind == "stmt" and isinstance(x.ast, ast.Assign) and src(x.ast.value) == f"faildict.get({why}.__class__)"]
+        after_f = [s_ for d in fdef for s_ in succ_of(g, d, None)]
         for n, call in full + halfc:
-            a = src(call.args[0]) if call.args else ""
-            if a == fvar:
-                ok = implied(g, n, [{fvar: NONNULL}], [{fvar: None}])
-                ctx.check(ok, "disconnect/reason", ctx.construct(q, call), "the canned failure is used although faildict had no entry (None is passed as reason)")
+            c = ctx.construct(q, call)
+            arg = call.args[0] if call.args else None
+            verdicts = []
+            for fval, want, msg in ((canned, canned, "faildict has an entry for the class of why but the notification is not given that entry"),
+                                    (None, fresh, "the canned failure is used although faildict had no entry (None is passed as reason)")):
+                base = {fvar: fval, f"failure.Failure({why})": fresh, f"Failure({why})": fresh}
+                for fa in facts_at(g, base, [n], srcs=after_f):
+                    try:
+                        v = peval(arg, fa) if arg is not None else None
+                    except NotConst:
+                        v = NotConst
+                    verdicts.append((v is want, v, msg))
+            if any(v is NotConst for _, v, _ in verdicts):
+                a = src(arg) if arg is not None else ""
+                if a == fvar:
+                    ctx.check(implied(g, n, [{fvar: NONNULL}], [{fvar: None}]), "disconnect/reason", c,
+                              "the canned failure is used although faildict had no entry (None is passed as reason)")
+                elif a in (f"failure.Failure({why})", f"Failure({why})"):
+                    ctx.ok("disconnect/reason", c)
+                else:
+                    ctx.note(f"disconnect/reason: the reason expression {a!r} could not be evaluated; not decided for {c}")
             else:
-                ctx.check(a in (f"failure.Failure({why})", f"Failure({why})"), "disconnect/reason", ctx.construct(q, call),
-                          "the reason passed to connectionLost is neither the faildict entry nor Failure(why)")
+                bad = [m for ok_, _, m in verdicts if not ok_]
+                ctx.check(not bad, "disconnect/reason", c, bad[0] if bad else "", detail="evaluated for faildict hit / miss")
         dflt = None
         pos = [a.arg for a in f.args.args]
         if "faildict" in pos:
@@ -558,7 +587,7 @@ def check(ctx):
             ctx.check(implied(g, n, guard_good, guard_bad), "tcp-lost/once-guard", ctx.construct(q, g.node(n).ast),
                       "tear-down work is done again on a connection whose socket is already gone")
         for n, call in calls_with(g, "self._closeSocket"):
-            a0 = local_def(f, call.args[0]) if len(call.args) == 1 else None
+            a0 = resolve_locals(f, call.args[0]) if len(call.args) == 1 else None
             key = f"{rparam}.check(error.ConnectionAborted)"
             ok = a0 is not None and test_value(a0, {key: None}) is True and test_value(a0, {key: NONNULL}) is False
             ctx.check(ok, "tcp-lost/orderly-unless-aborted", ctx.construct(q, call),
@@ -781,6 +810,15 @@ def check(ctx):
 
 
 MUTANTS = [
+    Mutant("disconnect-canned-reason-replaced-by-fresh-failure", PB, "                self.removeWriter(selectable)\n                selectable.connectionLost(f)\n",
+           "                self.removeWriter(selectable)\n                selectable.connectionLost(failure.Failure(why))\n", expect_rule="disconnect/reason"),
+    Mutant("disconnect-selected-reason-inverted", PB,
+           "        if f:\n            if (\n                isRead\n                and why.__class__ == error.ConnectionDone\n                and IHalfCloseableDescriptor.providedBy(selectable)\n            ):\n"
+           "                selectable.readConnectionLost(f)\n            else:\n                self.removeWriter(selectable)\n                selectable.connectionLost(f)\n"
+           "        else:\n            self.removeWriter(selectable)\n            selectable.connectionLost(failure.Failure(why))\n",
+           "        if (\n            f\n            and isRead\n            and why.__class__ == error.ConnectionDone\n            and IHalfCloseableDescriptor.providedBy(selectable)\n        ):\n"
+           "            notify, reason = selectable.readConnectionLost, f\n        else:\n            self.removeWriter(selectable)\n"
+           "            notify, reason = selectable.connectionLost, (failure.Failure(why) if f else f)\n        notify(reason)\n", expect_rule="disconnect/reason"),
     Mutant("select-handler-narrowed", SEL, "            why = getattr(selectable, method)()\n        except BaseException:",
            "            why = getattr(selectable, method)()\n        except Exception:", expect_rule="dispatch/handler-breadth"),
     Mutant("polllike-handler-narrowed", PB, "            except BaseException:\n                # Any exception from application code gets logged and will",
@@ -856,6 +894,27 @@ MUTANTS = [
            "            except KeyError:\n                pass\n", expect_rule="loop/unregistered-skipped"),
 ]
 SILENT = [
+    Silent("disconnect-notification-selected-then-called", PB,
+           "        if f:\n            if (\n                isRead\n                and why.__class__ == error.ConnectionDone\n                and IHalfCloseableDescriptor.providedBy(selectable)\n            ):\n"
+           "                selectable.readConnectionLost(f)\n            else:\n                self.removeWriter(selectable)\n                selectable.connectionLost(f)\n"
+           "        else:\n            self.removeWriter(selectable)\n            selectable.connectionLost(failure.Failure(why))\n",
+           "        if (\n            f\n            and isRead\n            and why.__class__ == error.ConnectionDone\n            and IHalfCloseableDescriptor.providedBy(selectable)\n        ):\n"
+           "            notify, reason = selectable.readConnectionLost, f\n        else:\n            self.removeWriter(selectable)\n"
+           "            notify, reason = selectable.connectionLost, (f if f else failure.Failure(why))\n        notify(reason)\n"),
+    Silent("select-ready-pairs-from-generator-helper", SEL,
+           "        for selectables, method, fdset in (\n            (r, \"doRead\", self._reads),\n            (w, \"doWrite\", self._writes),\n        ):\n            for selectable in selectables:\n"
+           "                # if this was disconnected in another thread, kill it.\n                # ^^^^ --- what the !@#*?  serious!  -exarkun\n"
+           "                if selectable not in fdset:  # type:ignore[operator]\n                    continue\n                # This for pausing input when we're not ready for more.\n"
+           "                _logrun(selectable, _drdw, selectable, method)\n",
+           "        for selectable, method in self._stillRegistered(r, w):\n            _logrun(selectable, _drdw, selectable, method)\n",
+           more=[(SEL, "    def _doReadOrWrite(self, selectable, method):\n",
+                  "    def _stillRegistered(self, r, w):\n        for selectables, method, fdset in ((r, \"doRead\", self._reads), (w, \"doWrite\", self._writes)):\n"
+                  "            for selectable in selectables:\n                if selectable in fdset:\n                    yield selectable, method\n\n    def _doReadOrWrite(self, selectable, method):\n")]),
+    Silent("polllike-event-test-through-static-helper", PB, "                    if event & self._POLL_IN:", "                    if self._has(event, self._POLL_IN):",
+           more=[(PB, "                    if not why and event & self._POLL_OUT:", "                    if not why and self._has(event, self._POLL_OUT):"),
+                 (PB, "    def _doReadOrWrite(self, selectable, fd, event):\n", "    @staticmethod\n    def _has(event, mask):\n        return event & mask\n\n    def _doReadOrWrite(self, selectable, fd, event):\n")]),
+    Silent("tcp-lost-attributes-dropped-in-a-loop", TCP, "        del self.protocol\n        del self.socket\n        del self.fileno\n",
+           "        for gone in (\"protocol\", \"socket\", \"fileno\"):\n            delattr(self, gone)\n"),
     Silent("select-handler-named", SEL, "        except BaseException:\n            why = sys.exc_info()[1]\n            log.err()\n        if why:",
            "        except BaseException as exc:\n            why = exc\n            log.err()\n        if why:"),
     Silent("select-membership-positive", SEL,
